@@ -67,6 +67,23 @@ def run(ctx):
         n = s1_held_selectors(ctx, "S1", fx, cls)
         ctx.need(n > 0, f"S1: {cls} has no register behind its source data any more (instance table stale)")
 
+    # ---- S1 on the packet arbiter: the offered beat is the granted master's, so the grant must not move while a beat waits.  The
+    # round-robin re-arbitrates when the granted master's request (Status.ongoing) drops: a master that offers a beat nobody took
+    # keeps requesting, and the end-of-packet strobe (which drops the request) needs the beat to be taken.
+    fxs = fx_of(ctx, PACKET, "Status")
+    inl = q.Inliner(fxs)
+    fo = inl.formula_of_path("self.ongoing")
+    waiting = B.from_expr("endpoint.valid & ~endpoint.ready")
+    ok = fo is not None and B.entails(waiting, fo)
+    ctx.ob("S1", PACKET, "Status", "a master whose beat waits (valid & ~ready) keeps requesting", ok,
+           "" if ok else f"ongoing = {B.show(fo) if fo is not None else '?'} can be low while endpoint.valid & ~endpoint.ready (e.g. "
+                         f"{B.counterexample(waiting, fo) if fo is not None else ''}): the arbiter moves the grant away and the beat offered on its output "
+                         f"changes before it is taken; the abandoned beat never requests again")
+    fl = inl.formula_of_path("self.last")
+    ok = fl is not None and B.entails(fl, B.from_expr("endpoint.valid & endpoint.ready"))
+    ctx.ob("S1", PACKET, "Status", "end-of-packet strobe only with the beat handed over", ok,
+           "" if ok else f"last = {B.show(fl) if fl is not None else '?'}")
+
     # ---- S9 empty accepts
     for cls in ("PipeValid", "_UpConverter", "Pack", "PipelinedActor", "PipeReady"):
         fx = fx_of(ctx, STREAM, cls)
